@@ -73,7 +73,11 @@ if _verif.ON:
     _verif.install(BUDGET)
 
 
+_WATCHDOG_FIRED = [0]
+
+
 def _alarm(signum, frame):
+    _WATCHDOG_FIRED[0] += 1
     raise VerifBudgetExceeded("wall-clock watchdog fired")
 
 
@@ -82,7 +86,9 @@ def call(fn, *args, **kw):
     {"out": "ok", "value": v, "ticks": n} | {"out": "exc", "type": name, "msg": str} | {"out": "budget", "msg": str}.
     Keyword-only controls: _budget (ticks), _alarm (seconds), _log (collect ticks), _quiet (capture stdout)."""
     budget = kw.pop("_budget", None)
-    secs = kw.pop("_alarm", 20)
+    secs = kw.pop("_alarm", 60)
+    if _WATCHDOG_FIRED[0] >= 3:          # a tree that hangs again and again: do not spend a minute on every further call
+        secs = min(secs, 10)
     log = kw.pop("_log", False)
     quiet = kw.pop("_quiet", False)
     BUDGET.count, BUDGET.limit, BUDGET.log = 0, budget, ([] if log else None)
